@@ -50,9 +50,10 @@ BUDGET_S = {'quick': 300, 'thorough': 3400}
 CASE_TIMEOUT_S = 120
 
 CH_KINDS = ['cb_session', 'process', 'run', 'tcp', 'sftp']
-SRV = ['echo', 'exit_now', 'close_now', 'abort_now', 'hang', 'slow_open']
+SRV = ['echo', 'exit_now', 'close_now', 'abort_now', 'hang', 'slow_open',
+       'flood_exit', 'flood_eof_close']
 CLI_ACTS = ['write', 'write_big', 'eof', 'close', 'abort', 'read',
-            'wait_closed', 'drain']
+            'wait_closed', 'drain', 'settle', 'close_wait']
 ENDINGS = ['close', 'abort', 'peer_close', 'peer_disconnect', 'none',
            'close_then_wait']
 
@@ -61,6 +62,24 @@ def gen_cases(tier, seed):
     rng = random.Random(f'c09-{seed}')
     n = 90 if tier == 'quick' else 1500
     cases = []
+    # directed: the peer floods and closes while local reading is paused
+    # with data still queued, then the application closes / waits
+    for kind, window, pause in (('process', 4096, False),
+                                ('process', 64, False),
+                                ('cb_session', None, True),
+                                ('cb_session', 4096, True)):
+        for srv in ('flood_exit', 'flood_eof_close'):
+            for acts in (['settle', 'close_wait'],
+                         ['settle', 'close', 'settle', 'wait_closed'],
+                         ['write', 'settle', 'abort']):
+                cases.append({'chans': [{'kind': kind, 'srv': srv,
+                                         'acts': acts, 'window': window,
+                                         'pause': pause}],
+                              'ending': 'close_then_wait',
+                              'concurrent': True, 'end_when': 'done',
+                              'chunk': 'all',
+                              'stride': 1 if tier == 'thorough' else 3,
+                              'cseed': 11})
     for i in range(n):
         chans = []
         for _ in range(rng.choice([1, 1, 2, 2, 3, 4])):
@@ -68,7 +87,11 @@ def gen_cases(tier, seed):
             srv = rng.choice(SRV)
             acts = [rng.choice(CLI_ACTS)
                     for _ in range(rng.choice([0, 1, 2, 3, 4]))]
-            chans.append({'kind': kind, 'srv': srv, 'acts': acts})
+            chans.append({'kind': kind, 'srv': srv, 'acts': acts,
+                          # a small receive window makes the stream layer
+                          # pause reading with data still queued
+                          'window': rng.choice([None, None, 4096, 64]),
+                          'pause': rng.random() < 0.2})
         cases.append({'chans': chans, 'ending': rng.choice(ENDINGS),
                       'concurrent': rng.random() < 0.6,
                       'end_when': rng.choice(['now', 'settled', 'settled',
@@ -78,6 +101,10 @@ def gen_cases(tier, seed):
                       rng.choice([2, 3, 5]),
                       'cseed': rng.randrange(1 << 30)})
     return cases
+
+
+def _short(case):
+    return {k: v for k, v in case.items() if k != 'cseed'}
 
 
 def signature(case):
@@ -125,12 +152,24 @@ class _Srv(apps.RecServer):
         sess = apps.RecServerSession(ctx['log'], f's{idx}')
         ctx['ssessions'].append(sess)
         beh = ctx['next_srv'].pop(0) if ctx['next_srv'] else 'echo'
+        win = None
+        if isinstance(beh, tuple):
+            beh, win = beh
+        # two window-fulls: the first fills the reader's buffer, the second
+        # waits inside the channel
+        sess.flood = [win, win] if win else [5000] * 4
         if beh == 'sftp':
             ctx['ssessions'].pop()
             ctx['sftp_sessions'] = ctx.get('sftp_sessions', 0) + 1
             from asyncssh.stream import SSHServerStreamSession
             return SSHServerStreamSession(None, asyncssh.SFTPServer, 3)
         sess.behaviour = beh
+        if beh.startswith('flood') and ctx.get('tr') is not None:
+            # drive this one at once: the point of the behaviour is that the
+            # peer's flood and close arrive before the client acts
+            ctx['started'].add(sess)
+            ctx['tr'].call('srv_' + sess.name,
+                           _server_session_task(ctx, sess))
         if beh == 'slow_open':
             async def later():
                 await ctx['gate'].wait()
@@ -163,6 +202,15 @@ async def _server_session_task(ctx, sess):
             chan.write('bye')
             chan.exit(3)
         elif beh == 'close_now':
+            chan.close()
+        elif beh == 'flood_exit':
+            for n in sess.flood:
+                chan.write('z' * n)
+            chan.exit(0)
+        elif beh == 'flood_eof_close':
+            for n in sess.flood:
+                chan.write('z' * n)
+            chan.write_eof()
             chan.close()
         elif beh == 'abort_now':
             chan.abort()
@@ -211,7 +259,7 @@ async def _client_channel(ctx, tr, conn, i, spec, rng):
     if kind == 'sftp':
         ctx['next_srv'].append('sftp')
     elif kind != 'tcp':
-        ctx['next_srv'].append(spec['srv'])
+        ctx['next_srv'].append((spec['srv'], spec.get('window')))
     data = 'x' * 50
     big = 'y' * 70000
 
@@ -238,15 +286,19 @@ async def _client_channel(ctx, tr, conn, i, spec, rng):
             chan = w.channel
             reader, writer = r, w
         elif kind == 'process':
+            kw = {'window': spec['window']} if spec.get('window') else {}
             proc = await tr.call(f'create_process{i}',
-                                 conn.create_process(f'c{i}'))
+                                 conn.create_process(f'c{i}', **kw))
             chan = proc.channel
             reader, writer = proc.stdout, proc.stdin
         else:
+            kw = {'window': spec['window']} if spec.get('window') else {}
             chan, sess = await tr.call(
                 f'create_session{i}',
                 conn.create_session(lambda: apps.RecClientSession(
-                    ctx['log'], f'c{i}'), f'c{i}'))
+                    ctx['log'], f'c{i}',
+                    [(1, None)] if spec.get('pause') else None),
+                    f'c{i}', **kw))
             ctx['csessions'].append(sess)
             reader = writer = None
 
@@ -268,6 +320,12 @@ async def _client_channel(ctx, tr, conn, i, spec, rng):
                 await tr.call(f'read{i}', reader.read(10))
             elif a == 'drain' and writer is not None:
                 await tr.call(f'drain{i}', writer.drain())
+            elif a == 'settle':
+                # let whatever the peer does (flood, exit, close) arrive
+                await tr.env.settle()
+            elif a == 'close_wait':
+                chan.close()
+                await tr.call(f'wait_closed{i}', chan.wait_closed())
             elif a == 'wait_closed':
                 if kind == 'process':
                     await tr.call(f'proc_wait{i}', proc.wait())
@@ -307,7 +365,8 @@ def _run_once(case, cut, mon, viol, record_trace=None):
                             server_opts={}) as env:
             tr = Tracker(env)
             state = {'n': {C2S: 0, S2C: 0}, 'cut_done': False}
-            started = set()
+            started = ctx['started'] = set()
+            ctx['tr'] = tr
 
             def on_write(pipe, idx, data):
                 state['n'][pipe.dir] += 1
@@ -418,6 +477,20 @@ def _run_once(case, cut, mon, viol, record_trace=None):
                     started.add(s)
                     tr.call('srv_' + s.name, _server_session_task(ctx, s))
             await env.settle()
+
+            # A close handshake needs nothing from the peer *application*:
+            # once close() was called, wait_closed() has to return whether
+            # or not anybody reads, and without waiting for the harness to
+            # end the whole connection below.
+            for name in tr.pending():
+                if 'wait_closed' in name:
+                    viol.append({
+                        'mechanism': 'wait_closed_hangs',
+                        'detail': f'{name} still pending at quiescence '
+                                  f'with every gate released and the '
+                                  f'connection still up; cut={cut} '
+                                  f'script={_short(case)}'})
+                    break
 
             ctx['final'] = True
             # if nothing ended the connection, end it now (orderly), so that
